@@ -14,7 +14,10 @@ use nom::{
 };
 use std::borrow::Cow;
 
-use crate::{parser::core::*, types::*};
+use crate::{
+    parser::{core::*, rfc3501::mailbox},
+    types::*,
+};
 
 fn is_entry_component_char(c: u8) -> bool {
     c < 0x80 && c > 0x19 && c != b'*' && c != b'%' && c != b'/'
@@ -153,8 +156,8 @@ fn entry_list(i: &[u8]) -> IResult<&[u8], Vec<Cow<str>>> {
     separated_list0(tag(" "), map(map(entry_name, slice_to_str), Cow::Borrowed))(i)
 }
 
-fn metadata_common(i: &[u8]) -> IResult<&[u8], &[u8]> {
-    let (i, (_, mbox, _)) = tuple((tag_no_case("METADATA "), quoted, tag(" ")))(i)?;
+fn metadata_common(i: &[u8]) -> IResult<&[u8], &str> {
+    let (i, (_, mbox, _)) = tuple((tag_no_case("METADATA "), mailbox, tag(" ")))(i)?;
     Ok((i, mbox))
 }
 
@@ -164,7 +167,7 @@ pub(crate) fn metadata_solicited(i: &[u8]) -> IResult<&[u8], Response> {
     Ok((
         i,
         Response::MailboxData(MailboxDatum::MetadataSolicited {
-            mailbox: Cow::Borrowed(slice_to_str(mailbox)),
+            mailbox: Cow::Borrowed(mailbox),
             values,
         }),
     ))
@@ -176,7 +179,7 @@ pub(crate) fn metadata_unsolicited(i: &[u8]) -> IResult<&[u8], Response> {
     Ok((
         i,
         Response::MailboxData(MailboxDatum::MetadataUnsolicited {
-            mailbox: Cow::Borrowed(slice_to_str(mailbox)),
+            mailbox: Cow::Borrowed(mailbox),
             values,
         }),
     ))
